@@ -979,10 +979,10 @@ http_data_decode_chunked(uint8_t *data, size_t data_size,
 		tm = ustrh2usize(cur_pos, (size_t)(end_line - cur_pos));
 		if (0 == tm)
 			break; /* Normal exit. */
+		if (tm > (size_t)(max_pos - (end_line + 2)))
+			return (EINVAL); /* Out of buf range. */
 		cur_pos = (end_line + 2 + tm);
 		ret_size += tm;
-		if (cur_pos > max_pos)
-			return (EINVAL); /* Out of buf range. */
 		/* No copy/move for first chunk, just change pointer. */
 		if (NULL == cur_wr_pos) {
 			(*data_ret) = (end_line + 2);
